@@ -42,7 +42,33 @@ def parse_overlay(path):
         elif sec[0] == "closure": cur["closures"][sec[1]] = text
         elif sec[0] == "raw": cur["raw"] = text
         buf = []
+    defs = {}
+    pending = []
+    def expand(ln):
+        if "$" in ln:
+            for k in sorted(defs, key=lambda x: -len(x)):
+                ln = ln.replace("$" + k, defs[k])
+        return ln
+    blockname = None
+    blockbuf = []
     for ln in open(path).read().split("\n"):
+        if ln.startswith("//@ defblock "):
+            blockname = ln.split()[2]; blockbuf = []; continue
+        if blockname is not None:
+            if ln.startswith("//@ enddef"):
+                defs[blockname] = "\\n".join(expand(x) for x in blockbuf); blockname = None
+            else:
+                blockbuf.append(ln)
+            continue
+        if ln.startswith("//@ def "):
+            w = ln.split(None, 3)
+            defs[w[2]] = expand(w[3]) if len(w) > 3 else ""
+            continue
+        ln = expand(ln)
+        if "\\n" in ln:
+            pending.extend(ln.split("\\n")); continue
+        pending.append(ln)
+    for ln in pending:
         if ln.startswith("//@"):
             close_sec()
             w = ln[3:].split()
@@ -180,13 +206,15 @@ def extract(unit, ex):
             info["anchor"] = "block:%s/stmts-from:%r" % (ex["within"], ex["stmts_from"])
         else:
             raise ExtractError("block extraction needs after/loop/stmts_from")
-        # select-arm binding: `PAT = FUT, if GUARD =>` directly in front of the block's enclosing arm
-        if ex.get("arm"):
-            # ex["arm"] = text of the arm head up to `=>`; located textually before the fragment
-            p = pat(ex["arm"])
+        # select-arm head `PAT = FUT [, if GUARD] =>` that leads to the fragment (must occur before it in the function)
+        if ex.get("arm_bind"):
+            head = ex["arm_bind"] + ((", if " + ex["arm_guard"]) if ex.get("arm_guard") else "") + " =>"
+            p = pat(head)
             a = find_seq(toks, p, bo, fstart)
-            if a < 0: raise ExtractError("anchor lost: select arm %r" % ex["arm"])
-            info["arm"] = ex["arm"]
+            if a < 0: raise ExtractError("anchor lost: select arm head %r" % head)
+            if not ex.get("bind_only_check"):
+                info["arm_bind"] = ex["arm_bind"]
+            info["arm_guard"] = ex.get("arm_guard")
         # free variables: names bound in the enclosing function before the fragment
         cands = set(R.bound_names_before(toks, bo, fstart)) | set(R.params_of(toks, m, [i for i in range(s, bo) if toks[i].s == "fn"][0]))
         cands |= set(ex.get("extra_bound", []))
@@ -234,13 +262,58 @@ def splice_loops(frag, ov, info):
     for k, (it, text) in ov["loops"].items():
         if k >= len(ls): raise ExtractError("item %s: overlay names loop %d but the body has %d loops" % (ov["id"], k, len(ls)))
         kw, o, c = ls[k]
-        ins.append((o, [Tok("raw", "\n" + text + "\n", None, 0, True)]))
+        # lines before the first `invariant`/`decreases` line are ghost statements placed in front of the loop
+        tl = text.split("\n")
+        cut = 0
+        while cut < len(tl) and not tl[cut].strip().startswith(("invariant", "decreases", "invariant_except_break", "ensures")): cut += 1
+        pre, inv = "\n".join(tl[:cut]).strip(), "\n".join(tl[cut:])
+        ins.append((o, [Tok("raw", "\n" + inv + "\n", None, 0, True)]))
+        if pre:
+            ins.append((kw, [Tok("raw", "\n" + pre + "\n", None, 0, True)]))
         if it:
             if frag[kw].s != "for": raise ExtractError("item %s: iter= on a non-for loop" % ov["id"])
             j = kw
             while frag[j].s != "in": j += 1
             ins.append((j + 1, T(it + " :")))
     info["loops"] = len(ls)
+    for pos, new in sorted(ins, key=lambda x: -x[0]):
+        frag[pos:pos] = new
+    return frag
+
+def closures_in(frag, m):
+    """(bar_open_idx, params_end_idx (the closing bar), body_start, body_end_exclusive) for closure literals, in token order"""
+    res = []
+    for i, t in enumerate(frag):
+        if t.s in ("|", "||") and (i == 0 or frag[i - 1].s in ("(", ",", "=", "move", "return", "{", ";", "=>")):
+            if t.s == "||": pe = i
+            else:
+                pe = i + 1
+                while frag[pe].s != "|": pe += 1
+            b = pe + 1
+            if frag[b].s == "{":
+                e = m[b] + 1
+            else:
+                e = b
+                while e < len(frag) and frag[e].s not in (",", ")", ";", "}"):
+                    if frag[e].k == "o": e = m[e]
+                    e += 1
+            res.append((i, pe, b, e))
+    return res
+
+def splice_closures(frag, ov, info):
+    """R10: re-emit closure k as `|params| <overlay clause> { body }` (clause keyed by closure ordinal)"""
+    if not ov["closures"]: return frag
+    m = match_table(frag)
+    cs = closures_in(frag, m)
+    ins = []
+    for k, text in ov["closures"].items():
+        if k >= len(cs): raise ExtractError("item %s: overlay names closure %d but the body has %d closures" % (ov["id"], k, len(cs)))
+        i, pe, b, e = cs[k]
+        if frag[b].s != "{":
+            ins.append((e, [Tok("c", "}", None, 0, True)]))
+            ins.append((b, [Tok("o", "{", None, 0, True)]))
+        ins.append((pe + 1, T(" ".join(text.split()))))
+    info["closures"] = len(cs)
     for pos, new in sorted(ins, key=lambda x: -x[0]):
         frag[pos:pos] = new
     return frag
@@ -332,6 +405,7 @@ def build_unit(name, canary=None):
         if ov["guard"] is not None:
             if ex.get("guard") is None or pat(ex["guard"]) != pat(ov["guard"]):
                 raise ExtractError("item %s: guard mismatch" % iid)
+        frag = splice_closures(frag, ov, info)
         frag = splice_loops(frag, ov, info)
         wrap = ex.get("impl")
         if wrap: g.add(wrap + " {")
@@ -340,15 +414,20 @@ def build_unit(name, canary=None):
         if canary == "fn":
             g.add("assert(false); // CANARY:%s.entry" % iid); g.canaries.append("%s.entry" % iid)
         if ov["prologue"]: g.add(ov["prologue"])
-        if info.get("arm"):
-            # bind the select arm: `let PAT = FUT;` (guard is the overlay's `requires`)
-            arm = tokenize(info["arm"])
+        if info.get("arm_guard") or info.get("arm_bind"):
             st = info["rules"]
             cfg = dict(unit.get("rules", {})); cfg.update(ex.get("rules", {}))
-            arm = R.r1_await(arm, st)
-            arm = R.r7_env(arm, st, cfg.get("env_methods", ()), cfg.get("env_paths", ()), cfg.get("closures", ()))
-            if ex.get("state"): arm = R.r5_state(arm, st, ex["state"])
-            g.add("let " + render(arm)[0].strip() + ";")
+            def rw(text):
+                a = tokenize(text)
+                a = R.r1_await(a, st)
+                a = R.r7_env(a, st, cfg.get("env_methods", ()), cfg.get("env_paths", ()), cfg.get("closures", ()))
+                if ex.get("state"): a = R.r5_state(a, st, ex["state"])
+                return render(a)[0].strip()
+            if info.get("arm_guard"):
+                # tokio runs a select! arm only if its `if` guard held when the select was entered (mechanical, from the source)
+                g.add("if !(" + rw(info["arm_guard"]) + ") { return vx_branch_disabled(); }")
+            if info.get("arm_bind"):
+                g.add("let " + rw(info["arm_bind"]) + ";")
         lines, lmap = render_item(frag)
         first = len(g.lines)
         loopno = 0
